@@ -173,22 +173,32 @@ impl Context {
     pub fn emit_mir(&self, src: &str) -> Result<Mir, Vec<Box<dyn ReportableError>>> {
         let path = self.file_path.clone();
         let (ast, module_info, mut parse_errs) = parser::parse_to_expr(src, path);
+        if !parse_errs.is_empty() {
+            // A tree with syntax errors is only type-checked, to report as many
+            // diagnostics as possible; it must never reach MIR generation, which
+            // assumes a well-formed tree.
+            let ast = if ast.has_staging_constructs() {
+                ast.wrap_to_staged_expr()
+            } else {
+                ast
+            };
+            let (_, _, mut type_errs) = mirgen::typecheck_with_module_info(
+                ast,
+                self.get_ext_typeinfos().as_slice(),
+                self.file_path.clone(),
+                module_info,
+            );
+            parse_errs.append(&mut type_errs);
+            return Err(parse_errs);
+        }
         // let ast = parser::add_global_context(ast, self.file_path.unwrap_or_default());
-        let mir = mirgen::compile_with_module_info(
+        mirgen::compile_with_module_info(
             ast,
             self.get_ext_typeinfos().as_slice(),
             &self.macros,
             self.file_path.clone(),
             module_info,
-        );
-        if parse_errs.is_empty() {
-            mir
-        } else {
-            let _ = mir.map_err(|mut e| {
-                parse_errs.append(&mut e);
-            });
-            Err(parse_errs)
-        }
+        )
     }
     pub fn emit_bytecode(&self, src: &str) -> Result<vm::Program, Vec<Box<dyn ReportableError>>> {
         let mir = self.emit_mir(src)?;
